@@ -267,6 +267,16 @@ func callWrites(e *Engine, c *ssa.CallCommon, ws writeSetT) {
 		ws.add("$allocTop", wFull)
 		return
 	}
+	ex := e.externs[mname+instSuffix(callee)]
+	if ex == nil {
+		ex = e.externs[mname]
+	}
+	if ex != nil {
+		for _, m := range ex.Modifies {
+			ws.add(e.resolveModifies(ex.Pkg, m), wFull)
+		}
+		return
+	}
 	if w, ok := modelWrites[mname]; ok {
 		for _, x := range w {
 			ws.add(x, wFull)
